@@ -2,7 +2,7 @@
 From Coq Require Import List ZArith Bool.
 From Pico Require Import Base.Res Base.Mach Wire.Wire Schema.Types Schema.Scalar Ref.Ref
   Schema.ScalarProofs Dec.Dec Dec.ReaderProofs Wire.VarintProofs Wire.WireProofs
-  Schema.Gen Schema.Interp Dec.LoopEquiv Dec.LoopInst Schema.DecFlat.
+  Schema.Gen Schema.Interp Dec.LoopEquiv Dec.LoopInst Schema.DecFlat Dec.SafetyProofs Dec.TokenBridge Schema.DecOps Schema.TDec gen.Schemas.
 Import ListNotations.
 Open Scope Z_scope.
 
@@ -49,10 +49,45 @@ Theorem C02_flat_message : forall progs F rec fields st fs un n n',
   let '(st', fs') := loop1 _ _ pfv skip (flat_readers fields) n' st fs in (st', (fs', un)).
 Proof. exact flat_unmarshal_single_pass. Qed.
 
-(* PARTIAL. pico_unmarshal = ref_decode on all inputs (and the closure of ref_decode under
-   reordering / repacking / non-minimal varints / splitting / unknown fields) is not proved;
-   it is decided per run on the rewritten-encoding stream: implementation = model = ref_decode
-   = protobuf-go. See DESIGN.md C02. *)
+(* the same for the Decode body of EVERY accepted message (all statement kinds: repeated, nested
+   messages, oneofs, casts, maps, UnrecognizedFields): under Loop it is the single-pass parser *)
+Theorem C02_every_decode_body : forall progs F' rec, (forall idx, sticky_fn (rec idx)) ->
+  forall ops, (forall op, In op ops -> op_num_ok op = true) -> ops_disjoint ops ->
+  forall st t n n', pf_inv st -> (blen st + 3 <= n)%nat -> (blen st + 2 <= n')%nat ->
+  Dec.loop n (dec_body progs (S F') rec ops) st t = loop1 _ _ pfv skip (map (op_reader progs (S F') rec) ops) n' st t.
+Proof. exact body_loop_single_pass. Qed.
+
+(* The decoder's cursor primitives read exactly the tokens of the protobuf wire grammar, on ARBITRARY bytes
+   (non-minimal varints, truncations and garbage included) *)
+Theorem C02_varint_reader : forall b, bytes_ok b ->
+  match spec_parse_varint b with
+  | Some (v, k) => consume_varint b = (v, Z.of_nat k) /\ (1 <= k <= length b)%nat /\ 0 <= v < 2 ^ 64
+  | None => snd (consume_varint b) < 0
+  end.
+Proof. exact consume_varint_parse. Qed.
+
+(* T_dec. For every schema in the generator's feature set (tdec_applies: valid distinct numbers, no opaque custom
+   type), every message of it and EVERY byte string: Unmarshal of the generated code returns exactly the value the
+   reference decoder computes by merging the tokens of the input in order (fields in any order, packed or not,
+   split repeated fields, non-minimal varints, unknown fields skipped or captured, duplicate map keys, nested
+   messages merged), and returns an error exactly when the reference decoder rejects the input. *)
+Theorem C02_unmarshal_is_reference_decoder : forall s progs idx data t0,
+  gen_all s = GOk progs -> tdec_applies s = true -> bytes_ok data ->
+  let r := pico_unmarshal progs idx data t0 in
+  match ref_decode (S (S (S (length data)))) s idx data t0 with
+  | Some t'' => fst r = None /\ snd r = t''
+  | None => fst r <> None
+  end.
+Proof. exact T_dec_b. Qed.
+
+(* the side condition holds for the checked-in schemas whose custom types are modelled (test.proto uses
+   custom types without modelled semantics) *)
+Example C02_applies_to_checked_in : map tdec_applies checked_in_schemas = [false; true; true; true; true].
+Proof. vm_compute. reflexivity. Qed.
+
+(* What remains outside the theorem: that the reference decoder itself (Ref.ref_decode, 150 lines written from
+   the encoding documentation) is the protobuf semantics - validated per run against protobuf-go on every generated
+   and rewritten encoding - and that the model is the code (correspondence). See DESIGN.md C02. *)
 
 Example C02_nonvacuous : dec_tr KBool 2 = 1 /\ dec_tr KInt32 4294967295 = -1 /\ dec_tr KSint32 4294967295 = -2147483648 /\ dec_tr KSfixed64 3 = 3.
 Proof. repeat split; vm_compute; reflexivity. Qed.
@@ -62,3 +97,6 @@ Print Assumptions C02_field.
 Print Assumptions C02_tag.
 Print Assumptions C02_loop_is_dispatch.
 Print Assumptions C02_flat_message.
+Print Assumptions C02_every_decode_body.
+Print Assumptions C02_varint_reader.
+Print Assumptions C02_unmarshal_is_reference_decoder.
